@@ -267,6 +267,35 @@ fn dangling(older: &str) {
     report("dangling", bad, detail.join("; "));
 }
 
+/// compaction-visible: histories whose newest run holds a relationship together with a tombstone (delete + re-create of the
+/// same relationship in one statement; create + delete of an end node in one statement); every read must return the same before
+/// and after compact().
+fn compaction_visible() {
+    let mut detail = Vec::new();
+    let mut bad = false;
+    let histories: [&[&str]; 3] = [
+        &["CREATE (:A {x:1})-[:R]->(:B {y:2})", "MATCH (a:A)-[r:R]->(b:B) DELETE r CREATE (a)-[:R]->(b)"],
+        &["CREATE (a:A {x:1})-[:R]->(b:B {y:2}) WITH b DETACH DELETE b"],
+        &["CREATE (a:A {x:1})-[:R]->(b:B {y:2}) WITH a DETACH DELETE a"],
+    ];
+    for h in histories {
+        let d = tempfile::tempdir().unwrap();
+        let db = Db::open(d.path().join("g")).unwrap();
+        for s in h {
+            w(&db, s).unwrap();
+        }
+        let qs = ["MATCH (a:A)-[r]->(x) RETURN count(r) AS c", "MATCH (b:B)<-[r]-(x) RETURN count(r) AS c", "MATCH ()-[r]->() RETURN count(r) AS c"];
+        let before: Vec<_> = qs.iter().map(|x| q(&db, x)).collect();
+        db.compact().unwrap();
+        let after: Vec<_> = qs.iter().map(|x| q(&db, x)).collect();
+        if before != after {
+            bad = true;
+            detail.push(format!("{:?}: before {:?} after {:?}", h, before, after));
+        }
+    }
+    report("compaction-visible", bad, detail.join("; "));
+}
+
 /// query <cypher>: prints rows (used by several E2 replays that only need one read query on an empty db).
 fn query(cy: &str) {
     let d = tempfile::tempdir().unwrap();
@@ -288,6 +317,7 @@ fn main() {
         "multilabel-reopen" => multilabel_reopen(&arg(2)),
         "vacuum-after-compaction" => vacuum_after_compaction(),
         "dangling" => dangling(&arg(2)),
+        "compaction-visible" => compaction_visible(),
         "query" => query(&arg(2)),
         _ => {
             eprintln!("unknown witness");
